@@ -24,7 +24,13 @@ INPUTS.update({
     "unsafe-call": SINK_CALL + b".",
     "benign-nested": pickle.dumps({"a": [1, (2, 3)], "b": {"c": None}}, protocol=4),
     "benign-p0": pickle.dumps([1, "two", 3.0][:2], protocol=0),
+    # flagged without any GLOBAL / STACK_GLOBAL opcode
+    "inst-call": asm("MARK", ("INST", ("vp_sink", "hit")), "STOP"),
+    "dup-proto": asm(("PROTO", 4), ("PROTO", 4), ("BININT1", 1), "STOP"),
+    "misplaced-proto": asm(("BININT1", 1), ("PROTO", 2), "STOP"),
+    "canary-dotted": asm(("GLOBAL", ("vp_canary_pkg.sub", "boom")), "EMPTY_TUPLE", "REDUCE", "STOP"),
 })
+COMPUTED = {"inst-call": "LIKELY_UNSAFE", "dup-proto": "LIKELY_UNSAFE", "misplaced-proto": "LIKELY_UNSAFE", "canary-dotted": "LIKELY_UNSAFE"}
 FAILING = {
     "unsupported-opcode+call": SINK_CALL + asm(("FLOAT", 1.5), "POP", "STOP"),
     "truncated+call": SINK_CALL + asm("MARK", ("BININT1", 1)),
@@ -161,14 +167,19 @@ def _config(item):
     st.inc("loads")
     eff_threshold = threshold if arming == "fickling.load" else "LIKELY_SAFE"
     rp = {"engine": "E3", "input": name, "arming": arming, "stream": kind, "threshold": threshold, "bytes": data}
+    import sys as _sys
+
+    for m in [m for m in _sys.modules if m.split(".")[0] == "vp_canary_pkg"]:
+        del _sys.modules[m]
     src, fh = make_src(kind, data, wd)
     try:
         (how, val), log, fc = observe(lambda: armed_load(arming, src, threshold))
     finally:
         if fh:
             fh.close()
+    cfg = f"{name} via {arming}/{kind} threshold {threshold}"
     failing = name in FAILING
-    sev = None if failing else EXPECTED.get(name) or ("LIKELY_UNSAFE" if name == "unsafe-call" else "LIKELY_SAFE")
+    sev = None if failing else EXPECTED.get(name) or COMPUTED.get(name) or ("LIKELY_UNSAFE" if name == "unsafe-call" else "LIKELY_SAFE")
     cfg = f"{name} via {arming}/{kind} threshold {threshold}"
     if how == "returned":
         if failing:
@@ -184,6 +195,8 @@ def _config(item):
             out.violate(PROP, f"C02|effects-differ|{arming}|{kind}", f"{cfg}: resolutions/effects {fc} {log} differ from the stock load of the analysed bytes {wfc} {wlog}", rp, 1)
         st.inc("returned")
     else:
+        if any(m.split(".")[0] == "vp_canary_pkg" for m in _sys.modules):
+            out.violate(PROP, f"C02|module-imported-before-refusal|{arming}", f"{cfg}: the load was refused but the package named by the pickle was imported", rp, 1)
         if fc or log:
             out.violate(PROP, f"C02|executed-before-refusal|{arming}|{'failing' if failing else sev}",
                         f"{cfg}: raised {type(val).__name__} but find_class={fc} sink={log}", rp, 1)
